@@ -5,12 +5,13 @@ import Driver.GCMon.Monitor
 import Driver.GCWeak.Events
 import Std.Data.HashSet
 /-!
-# `gcw`: the snapshot monitor `gcm` extended with the remembered-set model (C05), the reference /
-# finalizable processor models (C06) and the SATB survivor rule (C12)
+# `gcw`: the snapshot monitor `gcm` extended with the models of package gcweak
 
-Same protocol as `gcm` (GCRUN.md): `gcw reset`, `gcw op <hx_gc op>`, `gcw res <hx_gc result>`; one answer per line,
-`ok` or `viol <key> <detail>`. Every pair is first given to `Driver.GCMon.pair` (shadow heap, C01–C04
-verdicts); when that is `ok` the extensions below speak:
+Same protocol as `gcm` (GCRUN.md): `gcw reset`, `gcw mode satb|emergency`, `gcw op <hx_gc op>`, `gcw res <hx_gc result>`; one answer
+per line, `ok` or `viol <key> <detail>`. Every pair is first given to `Driver.GCMon.pair` (shadow heap, C01–C04
+verdicts); when that is `ok` the extensions below speak. At every pause (a result whose `gcs=` changed; several
+pauses in one op = a failing allocation, see `ext`) the reference / finalizable pipeline `Mmtk.WeakMon.gcStages` and
+the ephemeron rounds `ephRounds` run on the shadow heap as it was before the op; they give the survivor set `alive`.
 
 | key | property | clause |
 |---|---|---|
@@ -18,8 +19,12 @@ verdicts); when that is `ok` the extensions below speak:
 | `gc:referent-mismatch` | C06 | `referent <id>` / field 0 of a registered reference object in a snapshot ≠ the model's referent |
 | `gc:enqueued-mismatch` | C06 | `enqueued` ≠ (as multisets) what `scanRefs` enqueued since the last call |
 | `gc:getfin-mismatch` `gc:getallfin-mismatch` | C06 | `getfin` / `getallfin` ≠ `FinState.pop` / candidates ∪ ready |
-| `gc:ready-not-alive` | C06 | `ismo` / `islive` of an object the model keeps alive (ready for finalization, or retained) says dead |
-| `gc:satb-lost` | C12 | after FinalMark an object of the InitialMark snapshot / allocated during marking is not a valid object |
+| `gc:enum-dup` `gc:enum-missing` `gc:enum-extra` | C07 | `enum` lists an id twice / misses a valid object / (after a full-heap GC) lists a reclaimed one |
+| `gc:ismo-missing` `gc:ismo-stale` | C06 C07 C08 | `ismo a`: a valid object at `a` is not recognised / an answer where no valid object is |
+| `gc:findint-mismatch` | C08 | `findint p n` ≠ `Mmtk.IntPtr.findFromInternal` on the valid-object set (`spaces`, `ismapped` feed the SFT / chunk map) |
+| `gc:satb-lost` `gc:satb-protocol` | C12 | after FinalMark (`satb initial` / `satb final` markers of the runner) an object of the InitialMark snapshot / allocated during marking is not a valid object |
+| `gc:weak-not-drained` `gc:weak-sentinel` `gc:weak-rounds` `gc:weak-next-bucket` `gc:forward-weak` | C13 | `events`: the log is not a run of `Mmtk.WeakRounds` (Driver/GCWeak/Events.lean), wrong answers, forward_weak_refs misplaced |
+| `gc:ephdump-mismatch` | C13 | `ephdump` ≠ the ephemeron table the model keeps |
 -/
 namespace Driver.GCWeak
 open Driver Driver.GCMon Mmtk.Heap Mmtk.WeakMon
